@@ -61,8 +61,9 @@ def inherent_variants(tier, seed):
     from . import c17
     rng = random.Random(seed + 17)
     cases = []
-    for _ in range(6 if tier == 'quick' else 80):
-        c = c17.gen(rng)
+    for k in range(8 if tier == 'quick' else 80):
+        # every struct shape in turn (two lifetimes, const before type, ?Sized parameters, ..)
+        c = c17.gen(rng, idx=k, structs=['w8', 'w3', 'w6', 'w2', 'w7', 'w4', 'w5', 'w1'])
         cases.append(c)
         for _ in range(2):
             cases.append(rewrite(rng, c))
